@@ -219,7 +219,10 @@ func chainConfig(gal bool) *configs.ChainConfig {
 	return cc
 }
 
-func execute(rs *runSpec) *runResult {
+func execute(rs *runSpec) *runResult { return executeWith(rs, nil) }
+
+// executeWith runs with the given logger (nil: the counting tracer when rs.trace is set)
+func executeWith(rs *runSpec, logger rkvm.KVMLogger) *runResult {
 	sdb := buildState(rs.pre)
 	rec := newRecDB(sdb)
 	res := &runResult{db: rec}
@@ -229,11 +232,16 @@ func execute(rs *runSpec) *runResult {
 		Coinbase:    idAddr(coinbaseID), GasLimit: blockGasL, BlockHeight: big.NewInt(numberC), Time: big.NewInt(timeC),
 	}
 	cfg := rkvm.Config{}
-	if rs.trace {
+	if logger != nil {
+		cfg.Debug, cfg.Tracer = true, logger
+	} else if rs.trace {
 		res.tr = &tracer{}
 		cfg.Debug, cfg.Tracer = true, res.tr
 	}
 	machine := rkvm.NewKVM(bc, rkvm.TxContext{Origin: idAddr(originID), GasPrice: big.NewInt(1)}, rec, chainConfig(rs.gal), cfg)
+	if rt, ok := logger.(*recTracer); ok {
+		rt.cancel = machine.Cancel
+	}
 	type out struct {
 		ret  []byte
 		left uint64
